@@ -150,7 +150,7 @@ class Ctx(object):
     def fail(self, case, signature, observed=None):
         """Oracle failed on `case`. Either an open known finding explains it (counted, search
         goes on) or a Violation is raised for Hypothesis to shrink."""
-        if 'MinifyTimeout' in repr(signature):
+        if 'MinifyTimeout' in repr(signature) or 'MinifyTimeout' in repr(observed)[:4000]:
             # the system under test did not return within the time bound: inconclusive, never a violation
             self.note('sut_timeout_inconclusive')
             return
@@ -341,6 +341,17 @@ class Findings(object):
 # Parent side
 
 
+def _note_timeouts(ctx):
+    try:
+        from . import api
+        if api._timeouts[0]:
+            ctx.note('sut_time_limit_expiries', api._timeouts[0])
+            for t in api.TIMEOUT_TRACES[:3]:
+                ctx.note('expired_in: ' + ' | '.join(x.strip().split('\n')[0][-90:] for x in t.strip().split('  File ')[-3:]))
+    except Exception:
+        pass
+
+
 def _shard_entry(args):
     check_id, tier, seed, index, nshards = args
     os.environ['PYTHONHASHSEED'] = '0'
@@ -350,10 +361,18 @@ def _shard_entry(args):
     ctx = Ctx(check_id, tier, seed, index, nshards, Findings())
     try:
         mod.shard(ctx)
+        _note_timeouts(ctx)
         r = ctx.result()
-    except BaseException:
-        r = ctx.result()
-        r['error'] = traceback.format_exc()
+    except BaseException as e:
+        _note_timeouts(ctx)
+        if type(e).__name__ == 'MinifyTimeout':
+            # the system under test did not return in time and the family that was running has no case-level handling:
+            # the rest of this shard is skipped (inconclusive), which is neither a violation nor a harness error
+            ctx.note('shard_cut_short_by_sut_timeout')
+            r = ctx.result()
+        else:
+            r = ctx.result()
+            r['error'] = traceback.format_exc()
     finally:
         try:
             from .fleet import shutdown_all
